@@ -269,4 +269,22 @@ CLAIMS = {
         "succeed while a node is not ON or the server terminal is not RUNNING. Trusted: CrossHair/z3.",
         "technique": TECH_S,
     },
+    "C19": {
+        "text": "Bounded symbolic model checking of the real scripted-agent classes with randomness as solver variables "
+        "(the random module objects, science.random and the numpy Generator are stubs that hand out pre-allocated "
+        "solver values under the library contract only). PeriodicAgent and DataManipulationAgent: every path of 7 "
+        "(thorough 11) steps from the real constructor plus an unbounded-horizon inductive step, all timing settings "
+        "and max_executions unbounded solver integers. ProbabilisticAgent (built through from_config): all key orders "
+        "x action-map orders x probability tables over {0,1/4,1/2,3/4,1} for 3 (thorough 4) actions - the selected "
+        "action always has configured probability > 0. TAP003 and TAP001 (shipped UC7 settings): every path of "
+        "3-step (thorough 5-6 step) windows started at each step of the kill chain with unbounded timing settings, "
+        "both repeat flags, all draws, trial outcomes, three response statuses and scan results solver-chosen: stage "
+        "order without skipping, nothing outside permitted steps, gaps within frequency +- variance, restart/stop per "
+        "the repeat flags, actions only from the chosen start node.",
+        "note": "Randomness and the simulator's answers to red actions are contract-only stubs; TAP horizons are sliding "
+        "windows from states reached with every request granted; stage probabilities range over {0, 1/2, 1}; TAP001's "
+        "ACTIVATE stage is not required to honour its probability (the code deliberately applies none). RandomAgent has "
+        "no settings and is not covered. Trusted: CrossHair/z3, the stubs' contracts.",
+        "technique": TECH_S,
+    },
 }
